@@ -680,7 +680,9 @@ class Gen:
             lo = r.randint(0, 3)
             it = Ex(E_RANGE, [self.small_nat(lo, lo), self.small_nat(lo, lo + 3)], TList(NAT))
             ety = NAT
-        i = self.fresh(Info("var", ety))
+        # the variable of a loop over a range has an interval type {lo..hi-1}: like an enum type it is mistyped by
+        # arithmetic (-(v) : Nat), see Gen.noenum
+        i = self.fresh(Info("var", ety, enum=(it.tag == E_RANGE)))
         self.no_singleton.add(i)
         self.free_vars.add(i)
         mark = len(self.scope)
